@@ -33,7 +33,7 @@ import (
 
 // c12Walk sends a frame with the given switch block from nodes[path[0]] along
 // the links and returns the block the destination's router sees.
-func c12Walk(c *core.Case, vn *vnet.Net, nodes []*vnet.Node, path []int, block []byte, what string) []byte {
+func c12Walk(c *core.Case, vn *vnet.Net, nodes []*vnet.Node, path []int, block []byte, what string) ([]byte, frame.Frame) {
 	src, dst := nodes[path[0]], nodes[path[len(path)-1]]
 	blk := slices.Clone(block)
 	first, err := m.NextRotateSwitchBlock(blk, 0)
@@ -50,6 +50,46 @@ func c12Walk(c *core.Case, vn *vnet.Net, nodes []*vnet.Node, path []int, block [
 	if err := src.Sw.ForwardByLabel(f, first); err != nil {
 		c.Fatalf("%s: origin cannot forward by the first label %d: %v", what, first, err)
 	}
+	return c12Follow(c, vn, nodes, path, what)
+}
+
+// c12ReplyWalk answers on the received frame itself, the way a handler does:
+// the block the frame holds is reversed in place and handed, as the view it
+// is, to Reply together with the frame's own message; then the reply travels.
+func c12ReplyWalk(c *core.Case, vn *vnet.Net, nodes []*vnet.Node, path []int, fr frame.Frame, wantBlock []byte, what string) []byte {
+	src := nodes[path[0]]
+	blk := fr.SwitchBlock()
+	m.TransformToReturnBlock(blk)
+	if !bytes.Equal(blk, wantBlock) {
+		c.Fatalf("%s: the block of the received frame reverses to %x, the path's return block is %x", what, blk, wantBlock)
+	}
+	first, err := m.NextRotateSwitchBlock(blk, 0)
+	if err != nil {
+		c.Fatalf("%s: rotating the block at the origin: %v", what, err)
+	}
+	rotated := slices.Clone(blk)
+	msg := slices.Clone(fr.MessageData())
+	if err := fr.Reply(fr.SwitchBlock(), fr.MessageData(), nil); err != nil {
+		c.Fatalf("%s: Reply on the received frame: %v", what, err)
+	}
+	if !bytes.Equal(fr.SwitchBlock(), rotated) || !bytes.Equal(fr.MessageData(), msg) {
+		c.Fatalf("%s: the reply built on the received frame from its own block and message carries block %x and message %q, want %x and %q", what, fr.SwitchBlock(), fr.MessageData(), rotated, msg)
+	}
+	if len(path) > 30 {
+		fr.SetTTL(uint8(min(len(path)+5, 255)))
+	}
+	if err := src.Sw.ForwardByLabel(fr, first); err != nil {
+		c.Fatalf("%s: origin cannot forward by the first label %d: %v", what, first, err)
+	}
+	got, last := c12Follow(c, vn, nodes, path, what)
+	last.ReturnToPool()
+	return got
+}
+
+// c12Follow delivers the one frame in flight hop by hop along the path and
+// returns the block the destination's router sees, and that frame.
+func c12Follow(c *core.Case, vn *vnet.Net, nodes []*vnet.Node, path []int, what string) ([]byte, frame.Frame) {
+	dst := nodes[path[len(path)-1]]
 	for step := 1; ; step++ {
 		if len(vn.Queue) != 1 {
 			c.Fatalf("%s: %d frames in flight after hop %d (want exactly one)", what, len(vn.Queue), step-1)
@@ -70,10 +110,10 @@ func c12Walk(c *core.Case, vn *vnet.Net, nodes []*vnet.Node, path []int, block [
 				c.Fatalf("%s: frame both delivered and forwarded", what)
 			}
 			got := slices.Clone(esc[0].SwitchBlock())
-			for _, e := range esc {
+			for _, e := range esc[1:] {
 				e.ReturnToPool()
 			}
-			return got
+			return got, esc[0]
 		}
 		if fl.To == dst {
 			c.Fatalf("%s: the destination's switch did not hand the frame to its router", what)
@@ -190,12 +230,21 @@ func TestC12Switch(t *testing.T) {
 		}
 		desc := c12Describe(hops)
 		c.Note("path %s block size %d", desc, len(sp.ForwardBlock))
-		at := c12Walk(c, vn, nodes, path, sp.ForwardBlock, "forward "+desc)
+		at, arrived := c12Walk(c, vn, nodes, path, sp.ForwardBlock, "forward "+desc)
 		m.TransformToReturnBlock(at)
 		if !bytes.Equal(at, sp.ReturnBlock) {
 			c.Fatalf("path %s: the block at the destination reverses to %x, the path's return block is %x", desc, at, sp.ReturnBlock)
 		}
-		home := c12Walk(c, vn, nodes, back, at, "return "+desc)
+		var home []byte
+		if c.Bool("reply-on-the-received-frame") {
+			home = c12ReplyWalk(c, vn, nodes, back, arrived, sp.ReturnBlock, "reply "+desc)
+			c.Class("switch/reply-built-on-the-received-frame")
+		} else {
+			arrived.ReturnToPool()
+			var last frame.Frame
+			home, last = c12Walk(c, vn, nodes, back, at, "return "+desc)
+			last.ReturnToPool()
+		}
 		m.TransformToReturnBlock(home)
 		if !bytes.Equal(home, sp.ForwardBlock) {
 			c.Fatalf("path %s: after the round trip the block reverses to %x, the forward block was %x", desc, home, sp.ForwardBlock)
